@@ -12,11 +12,11 @@ import (
 )
 
 // NewHTTPHandler builds an httpserver.Coordinator on app, runs its real Configure (which reads viper) and
-// returns the router it serves. No listener is opened (that is Start's job). Configure may panic.
+// returns what its (first) listener serves. No listener is opened (that is Start's job). Configure may panic.
 func NewHTTPHandler(app *protocol.ApplicationContext) http.Handler {
 	hc := &httpserver.Coordinator{App: app, Log: zap.NewNop()}
 	hc.Configure()
-	return hc.VerifHandler()
+	return hc.VerifListenerHandler()
 }
 
 // ResetMetrics forgets every series of the Prometheus gauge vectors.
